@@ -292,3 +292,55 @@ def s_signature_defaults(ctx):
 
 SCENARIOS.append(Scenario("C01.converter.signature.defaults", s_signature_defaults, [(CONV, "Converter._translate_function_signature_common")],
                           kind="bounded", bound="<= 3 parameters, every split into attribute / tensor parameters, every number of defaults"))
+
+
+def s_eval_op(ctx):
+    """BaseEvaluator.eval_op (the target of Op.__call__, i.e. of every eager opsetN.<Op>(...) call): attributes and inputs are adapted with THE
+    SIGNATURE OF THE OP THAT IS CALLED and evaluated with its schema — also when another version of the same operator (same domain and name,
+    other since_version, other signature) was evaluated by the same evaluator object just before; the result is the adapted output."""
+    from onnxscript._internal import evaluator
+    I = Interp(ctx)
+    ev = I.instantiate(evaluator.BaseEvaluator, [], {}) if False else SObj(evaluator.BaseEvaluator, "evaluator")
+    ev.fields["_ignore_unknown_function_kwargs"] = False
+    # fields a memoising variant might keep on the evaluator are allowed to exist: give __init__'s effects a chance
+    try:
+        I.call(evaluator.BaseEvaluator.__init__, [ev], {})
+    except PyRaise:
+        pass
+    same_name = ctx.choose(2, "the second op has the same domain and name (another version)") == 0
+    log = []
+
+    def mk_op(tag, name):
+        op = SObj(object, "op_" + tag)
+        op.fields.update(name=name, domain="", op_signature=("signature", tag), op_schema=("schema", tag))
+        return op
+    op1, op2 = mk_op("first", "Pow"), mk_op("second", "Pow" if same_name else "Add")
+    I.models[evaluator._unwrap_tensors_in_kwargs] = lambda interp, kw: dict(kw)
+    I.models[evaluator.BaseEvaluator._adapt_attributes] = lambda interp, slf, sig, attrs: (log.append(("attrs", sig)) or (("adapted-attrs", sig), ("closure", sig)))
+    I.models[evaluator.BaseEvaluator._adapt_inputs] = lambda interp, slf, sig, args: (log.append(("inputs", sig)) or ("adapted-inputs", sig))
+    I.models[evaluator.BaseEvaluator._adapt_outputs] = lambda interp, slf, outs: ("adapted-outputs", outs)
+    ev.fields["_eval"] = None
+    evals = []
+
+    def _eval(*a):
+        raise AssertionError
+    I.models[_eval] = lambda interp, schema, inputs, attributes, closure: (evals.append((schema, inputs, attributes, closure)) or ("outputs", schema))
+    ev.fields["_eval"] = _eval
+    clo = I.closure_of(evaluator.BaseEvaluator.eval_op)
+    I.run_closure(clo, [ev, op1, ("x",), {}], {})
+    del log[:]
+    del evals[:]
+    r = I.run_closure(clo, [ev, op2, ("x",), {}], {})
+    CLO = ("C17: 'eager call with defaults vs bare node' / C14: results are 'independent of what the process did before' — the operator version that is "
+           "called decides the signature used for promotion and arity, not an earlier call of another version")
+    sig2 = ("signature", "second")
+    ctx.check("C01.eager.eval_op.inputs_and_attributes_are_adapted_with_the_signature_of_the_called_op", log == [("attrs", sig2), ("inputs", sig2)] or
+              sorted(log) == sorted([("attrs", sig2), ("inputs", sig2)]), CLO)
+    ok = len(evals) == 1
+    ctx.check("C01.eager.eval_op.evaluated_once_with_the_schema_of_the_called_op_and_the_adapted_values",
+              ok and evals[0] == (("schema", "second"), ("adapted-inputs", sig2), ("adapted-attrs", sig2), ("closure", sig2)), CLO)
+    ctx.check("C01.eager.eval_op.result_is_the_adapted_output", r == ("adapted-outputs", ("outputs", ("schema", "second"))), CLO)
+
+
+SCENARIOS.append(Scenario("C01.eager.eval_op", s_eval_op, [("onnxscript/_internal/evaluator.py", "BaseEvaluator.eval_op")],
+                          trusted=["_adapt_attributes / _adapt_inputs / _adapt_outputs / _eval are abstract (own contracts: eval_function scenario, C12 cast_inputs)"]))
